@@ -525,7 +525,9 @@ func (c *FnCtx) anonLock(frame *Frame, st *State, op string) bool {
 		if op == "rlock" {
 			st.held["$anon#r"] = true
 		}
-		if !st.lockedOnce {
+		{
+			// every acquisition sees whatever other threads left behind
+			first := !st.lockedOnce
 			st.lockedOnce = true
 			env := &SpecEnv{c: c, st: st, heap: st.heap, vars: map[string]Val{}, pkg: c.fn.Pkg.Pkg}
 			for n, v := range c.entryParams {
@@ -534,6 +536,9 @@ func (c *FnCtx) anonLock(frame *Frame, st *State, op string) bool {
 			for _, m := range fc.OnLock {
 				c.havocModItem(st, env, m, nil)
 				env.heap = st.heap
+			}
+			if !first {
+				return true
 			}
 			c.note("on_lock: " + strings.Join(fc.OnLockText, ", ") + " havocked when the mutex is first acquired (interference by other threads); old() is the state at that point")
 			for _, r := range fc.RequiresLocked {
